@@ -2,7 +2,6 @@ package verifc30
 
 import (
 	"fmt"
-	"os"
 	"strings"
 
 	"github.com/snapcore/snapd/registry"
@@ -32,9 +31,6 @@ func RunTx(c Case) (verifkit.Outcome, error) {
 	if err != nil {
 		if strings.HasPrefix(err.Error(), "HARNESS") {
 			panic(err.Error())
-		}
-		if os.Getenv("C30_DEBUG") != "" {
-			fmt.Println("VIEW-REFUSED:", err)
 		}
 		return verifkit.Outcome{Skip: true, Labels: []string{"view-refused"}}, nil
 	}
